@@ -3,6 +3,7 @@ package main
 import (
 	"bytes"
 	"context"
+	"errors"
 	"fmt"
 	"strings"
 	"sync"
@@ -179,6 +180,14 @@ func genC34Case(c *mon.Ctx, i int, pool []*cdnFile, adversarial bool) c34Case {
 		if cs.X < 0 {
 			cs.X = 0
 		}
+	case "truncate-boundary":
+		// needs hash-window boundaries strictly inside one answer: small windows, larger parts
+		cs.WinStyle = []string{"uniform-4k8k", "uniform-4k8k", "chunk-aligned"}[r.IntN(3)]
+		for tries := 0; cs.Part < 16384 && tries < 20; tries++ {
+			cs.Part = c34Parts[r.IntN(len(c34Parts))]
+		}
+		cs.Chunk %= size/cs.Part + 1
+		cs.X = int64(cs.Chunk) * int64(cs.Part)
 	}
 	return cs
 }
@@ -347,7 +356,7 @@ func runPlanGrid(c *mon.Ctx) {
 
 func errClass(err error) string {
 	s := err.Error()
-	for _, k := range []string{"file hash mismatch", "hash for offset", "invalid CDN window length", "invalid overlap", "retry limit", "CDN returned", "truncated", "invalid CDN hash"} {
+	for _, k := range []string{"file hash mismatch", "hash for offset", "invalid CDN window length", "invalid overlap", "retry limit", "more than requested", "data after end of file", "truncated", "invalid CDN hash", "must be divisible"} {
 		if strings.Contains(s, k) {
 			return k
 		}
@@ -548,6 +557,11 @@ func runC34Case(c *mon.Ctx, cs *c34Case, cf *cdnFile, st *c34Stats, sc *scratch)
 		st.Unlock()
 		c.Distinct(strings.Join([]string{"rejected", cs.Mode, cs.Way, cs.Strategy, chunkClass}, "/"))
 		c.Sample("rejected/"+strategyFamily(cs.Strategy), map[string]any{"case": cs, "error": err.Error()})
+	case errors.Is(err, downloader.ErrHashMismatch) && cs.Mode != "verify-master":
+		// No corruption was injected: the CDN served the reference encryption of
+		// the genuine file and the master its true hashes, so a hash mismatch means
+		// the client decrypted (or cut windows) differently from the reference.
+		c.Violate("honest-rejected|"+cs.Mode+"|hash-mismatch", wit(nil))
 	default:
 		// failure without any corruption
 		st.Lock()
